@@ -253,6 +253,27 @@ def main(tier, seed, replay=None):
                 rep.violation('canon:%s:%s:N=%d:seed=%s:event=%d:%s' % (t['family'][0], t['family'][1], N, t['seed'], l, e.get('act')),
                               '%s/%s %s N=%d seed=%s move %d %s: %s' % (t['family'][0], t['family'][1], t['kind'], N, t['seed'], l, act, (m.group(2) if m else d)[:700]),
                               {'op': 'canon', 'family': t['family'], 'N': N, 'seed': t['seed'], 'event': l, 'move': act, 'obs': e.get('obs')})
+    if not replay:
+        from vlib import negative_controls
+        def c_iso(e):
+            if e['act'] == 'canonize' and e['out'] == 'ok' and e['to'] == 'first' and all(x[1] for x in e['obs']['iso']):
+                e['obs']['iso'][-1][1] = False            # canonize_(to='first') guarantees a right isometry on every site
+                return True
+        for t in traces:          # the exact-state guarantee certainly holds for the first move of a sequence
+            for e in t['ev'][:2]:
+                e['first'] = True
+        def c_same(e):
+            if e.get('first') and e['act'] in ('orth', 'canonize') and e['out'] == 'ok' and not e.get('nz') and e['obs']['same']:
+                e['obs']['same'] = False
+                e['obs']['parallel'] = False
+                return True
+        def c_disc(e):
+            if e['act'] == 'truncate' and e.get('binding') and e['obs']['discarded_ok']:
+                e['obs']['discarded_ok'] = False
+                return True
+        Nc = max(t['N'] for t in traces)
+        rep.cov['parts']['negative_controls_rejected'] = negative_controls('TraceMpsCanon', 'TraceMpsCanon_N%d.cfg' % Nc, [t for t in traces if t['N'] == Nc],
+                                                                           [('isometry flag after canonize_', c_iso), ('state changed by a gauge move', c_same), ('dishonest discarded weight', c_disc)], timeout=900)
     rep.cov['traces_validated_against_impl'] = len(traces)
     rep.cov['evaluations'] = nev
     evs = [e for t in traces for e in t['ev']]
